@@ -712,7 +712,7 @@ func main() {
 		_ = pprof.StartCPUProfile(f)
 		defer pprof.StopCPUProfile()
 	}
-	n := r.N(40, 1500)
+	n := r.N(40, 400)
 	par := r.N(4, 8)
 	if v := os.Getenv("C40_DEV_ROUNDS"); v != "" { // development knob, not used by /verif/check
 		fmt.Sscan(v, &n)
